@@ -456,7 +456,8 @@ where
     let mut rng2 = rng.fork();
     let rec2 = rec.clone();
     rt.block_on(async move {
-        let lifecycle = TestLifecycle { rec: rec2.clone(), targets: Arc::new(targets), commanders: Default::default() };
+        let eager = rng.below(targets.len() as u64 + 1) as u32;
+        let lifecycle = TestLifecycle { rec: rec2.clone(), targets: Arc::new(targets), commanders: Default::default(), eager };
         let agent = JitterAgent {
             inner: AgentModel::new(TestAgent::default, lifecycle.into_lifecycle()),
             rng: Mutex::new(rng2.fork()),
